@@ -138,7 +138,8 @@ def execute(args):
             x.meta_before = {r: cli.snapshot(r) for r in (proj, tmpdir, os.path.join(work, "cwd"), os.path.join(work, "outside"))}
         r = cli.run_breadlog(os.path.join(proj, "Breadlog.yaml"), check=sc.check, cwd=os.path.join(work, "cwd"),
                              tmpdir=tmp_env, timeout=opt.get("timeout", 30), ignored_at_entry=opt.get("ignored_at_entry", ()),
-                             shim={"log": os.path.join(work, "fsx.log"), "roots": roots, "plan": plan_str(plan), "sticky_prefix": tmpdir})
+                             shim={"log": os.path.join(work, "fsx.log"), "roots": roots, "plan": plan_str(plan), "sticky_prefix": tmpdir,
+                                   "xdev_parent": proj if opt.get("config_dir_on_other_fs") else ""})
         x.exit, x.signal, x.timed_out = r.exit, r.signal, r.timed_out
         x.stdout, x.stderr = r.stdout, r.stderr
         x.trace = r.trace
